@@ -60,7 +60,8 @@ type StepObs struct {
 }
 
 type ExtraInfo struct {
-	Now uint64 `json:"now"` // block time (unix seconds) of the context the handlers ran in
+	Now    uint64 `json:"now"`    // block time (unix seconds) of the context the handlers ran in
+	Native string `json:"native"` // hex of Keeper.GetChainName on the application state the xibc cases start from
 }
 
 const chainID = "teleport_9000-1"
@@ -123,7 +124,7 @@ func errText(err error) string {
 }
 
 func runCase(e *env, c *Case) {
-	c.Extra = &ExtraInfo{Now: uint64(blockTime.Unix())}
+	c.Extra = &ExtraInfo{Now: uint64(blockTime.Unix()), Native: hx(e.app.XIBCKeeper.ClientKeeper.GetChainName(e.base))}
 	switch c.Kind {
 	case "xibc":
 		c.Obs = runXibc(e, c.Xibc)
